@@ -1,16 +1,27 @@
 #!/venv/bin/python
-"""C07 — undo / redo: correspondence with Ptk.Model.C07 + property oracle.
+"""C07 — undo / redo: correspondence with Ptk.Model.C07 / C07Multi + property oracle.
 
-Two kinds of cases:
+Kinds of cases:
 
-  api   a bare `Buffer` driven through its API: edits, save_to_undo_stack(clear), undo(), redo(),
-        reset().  The model predicts text, cursor and both stacks after every call.
-  keys  a real `PromptSession` (emacs or vi mode), keys fed one by one into the real
-        `KeyProcessor`.  Every call of `KeyProcessor._call_handler` is observed (handler identity,
-        the binding's `save_before` as a function of is_repeat, the Buffer.undo()/redo() calls made
-        by the handler, state before/after).  The body of a non-undo handler is a parameter of the
-        model (its observed result is passed in); the model predicts the is_repeat decision, the
-        boundary save, both stacks, `_previous_handler`, and the complete effect of undo / redo.
+  api    a bare `Buffer` (with a dynamic read_only filter) driven through its API: edits, save_to_undo_stack(clear),
+         undo(), redo(), reset(), read-only on/off.  The model predicts text, cursor and both stacks after every call.
+  keys   a real `PromptSession` (emacs or vi mode), keys fed one by one into the real `KeyProcessor`.  Every call of
+         `KeyProcessor._call_handler` is observed (handler identity, the binding's `save_before` as a function of
+         is_repeat, the Buffer.undo()/redo()/save_to_undo_stack()/reset() calls made by the handler, how the handler
+         ended: returned / EditReadOnlyBuffer / raised, state before/after).  The body of a non-undo handler is a
+         parameter of the model (its observed result is passed in); the model predicts the is_repeat decision, the
+         boundary save, both stacks, `_previous_handler`, and the complete effect of undo / redo — also on a read-only
+         buffer.  Markers between keys: <cpr> (cursor position report), <kpreset> (KeyProcessor.reset()), <ro> (the
+         buffer becomes read-only / writable), <restart> (a new prompt on the same PromptSession: Buffer.reset +
+         Application.reset); edits made outside a command (asynchronous completions) are detected and passed to the
+         model as `ext` items.  Every shipped binding that ran is looked up in the regenerated table (`rowhas`).
+  mkeys  the same with several tracked buffers: a PromptSession with search and system prompt (default / search / system
+         buffer), or a two-field form (an Application with two BufferControls, `c-n` moves the focus, optionally an
+         on_text_insert callback that advances the focus).  Model: Ptk.Model.C07Multi (`mcall` lines carry, per buffer,
+         what the handler did to it, and the new focus).
+  ekeys / vkeys   fully modelled emacs / vi key sets: the model predicts everything from the key names alone.
+
+The oracle restates the property per buffer and per session (a `Buffer.reset` starts a new one) on the real run.
 """
 from __future__ import annotations
 
@@ -23,74 +34,147 @@ import types
 
 sys.path.insert(0, os.path.dirname(os.path.abspath(__file__)))
 import core
+import gen_c07
 from core import enc_str
 
-from prompt_toolkit.buffer import Buffer
+from prompt_toolkit.buffer import Buffer, EditReadOnlyBuffer
+from prompt_toolkit.filters import Condition
 from prompt_toolkit.document import Document
 
 ID = "C07"
 DRIVER = "drv_c07"
-PROPS = ["Ptk.Props.C07"]
-TECHNIQUE = "Lean 4 proof over an executable model + differential correspondence + property oracle"
-LEVEL_TEXT = ("Lean 4 theorems over an executable model of Buffer.save_to_undo_stack / undo / redo / reset and of the "
-              "command boundary of KeyProcessor._call_handler (is_repeat, save_before): for every session (any handler "
-              "bodies, any save_before rules, any initial document) the undo stack is a subsequence of the log of "
-              "(text, cursor) states held at command boundaries, every undo restores such a strictly earlier state with "
-              "a different text, successive undos walk the log backwards, repeated undo reaches the initial text, a run "
-              "of one if_no_repeat handler (also followed by motions / Escape) is undone as one group, redo after undo "
-              "restores (text, cursor) exactly (also n-fold, and undo after redo), every editing command leaves the "
-              "redo stack empty, snapshots stay valid documents; hypothesis-free instances for the shipped emacs and "
-              "Vi bindings of a fully modelled key set; the model is tied to /repo on every run by a differential "
-              "correspondence (bare Buffer API; real PromptSession key processor in emacs and vi mode with observed "
-              "handler bodies; fully modelled emacs and vi key sets) and the property oracle on the real objects")
+PROPS = ["Ptk.Props.C07", "Ptk.Props.C07Group", "Ptk.Props.C07RO", "Ptk.Props.C07Table", "Ptk.Props.C07Keys",
+         "Ptk.Props.C07Multi"]
+TECHNIQUE = "Lean 4 proof over an executable model + regenerated binding table + differential correspondence + property oracle"
+ANCHORS = ["src/prompt_toolkit/buffer.py", "src/prompt_toolkit/key_binding/key_processor.py",
+           "src/prompt_toolkit/key_binding/key_bindings.py", "src/prompt_toolkit/key_binding/bindings/basic.py",
+           "src/prompt_toolkit/key_binding/bindings/emacs.py", "src/prompt_toolkit/key_binding/bindings/vi.py",
+           "src/prompt_toolkit/key_binding/bindings/named_commands.py", "src/prompt_toolkit/key_binding/bindings/cpr.py"]
+# functions whose bodies Ptk/Model/C07*.lean follows line by line and the correspondence exercises
+MODELLED = {
+    "src/prompt_toolkit/buffer.py": ["Buffer.save_to_undo_stack", "Buffer.undo", "Buffer.redo", "Buffer.reset"],
+    "src/prompt_toolkit/key_binding/key_processor.py": [
+        "KeyProcessor._call_handler", "KeyProcessor.reset", "KeyProcessor._process_cpr_response",
+        "KeyProcessor._fix_vi_cursor_position", "KeyPressEvent.arg", "KeyPressEvent.append_to_arg_count"],
+    "src/prompt_toolkit/key_binding/bindings/basic.py": ["if_no_repeat"],
+    "src/prompt_toolkit/key_binding/bindings/named_commands.py": [
+        "self_insert", "backward_delete_char", "delete_char", "backward_char", "forward_char", "beginning_of_line",
+        "end_of_line", "kill_line", "unix_line_discard", "undo"],
+    "src/prompt_toolkit/key_binding/bindings/vi.py": [
+        "load_vi_bindings._back_to_navigation", "load_vi_bindings._i", "load_vi_bindings._a", "load_vi_bindings._A",
+        "load_vi_bindings._delete", "load_vi_bindings._delete_before_cursor", "load_vi_bindings._undo"],
+}
+LEVEL_TEXT = ("Lean 4 theorems over an executable model of Buffer.save_to_undo_stack / undo / redo / reset (also on a "
+              "read-only buffer), of KeyProcessor._call_handler (is_repeat, save_before on app.current_buffer, the three "
+              "ways a handler can end: return, EditReadOnlyBuffer, any other exception -> KeyProcessor.reset()), of "
+              "KeyProcessor.reset / _process_cpr_response and of an application with several buffers and a focus. For "
+              "EVERY session -- any number of commands with any handler bodies and any save_before value at every call, "
+              "handlers that raise, KeyProcessor.reset(), cursor position reports, edits made outside a command "
+              "(asynchronous completions), from any initial document -- the undo stack is a subsequence of the log of "
+              "(text, cursor) states held at command boundaries, every undo restores such a strictly earlier state with a "
+              "different text, successive undos walk the log backwards, snapshots stay valid documents, neighbouring "
+              "snapshots differ; in every session in which no text change lacks a snapshot (Disciplined; implied by a "
+              "STATIC condition on the bindings) repeated undo reaches the initial text and every text-changing edit "
+              "leaves the redo stack empty; redo after undo restores (text, cursor) exactly (also n-fold through any "
+              "mix of undo commands, and undo after redo). The save_before bits of ALL key bindings a PromptSession "
+              "can dispatch (587 rows today) are READ from the real Binding objects into a regenerated table; the session theorems hold "
+              "for every table satisfying a decidable predicate (every non-undo binding snapshots when it is not a "
+              "repeat, undo bindings never snapshot) which the kernel re-decides on the regenerated table on every run, "
+              "together with a pin of every function that touches the stacks or calls undo/redo/save_to_undo_stack. "
+              "Grouping: exactly the bindings with bits (save when not a repeat, not when a repeat) -- self-insert, "
+              "Backspace, Delete (regenerated) -- are undone as ONE group: proved for insertion runs, Backspace and "
+              "Delete runs, runs followed by motions / Escape, runs with CPR responses inside, two runs split by a "
+              "motion (first undo = state before the second run, second undo = state before the first), and a "
+              "default-rule handler is proved NOT grouped; an exception, KeyProcessor.reset() or a new prompt starts a "
+              "new group. Several buffers: every buffer of a multi-buffer session is proved to BE a single-buffer "
+              "session (projection), so all of the above holds per buffer. Hypothesis-free instances for fully modelled "
+              "emacs (all printable characters + 15 keys) and Vi (10 keys incl. counts) key sets whose rules are looked "
+              "up in the table. The model is tied to /repo on every run by the regenerated table and probes, and by a "
+              "differential correspondence (bare Buffer API incl. read-only phases; real PromptSession key processor "
+              "in emacs and vi mode with observed handler bodies, raising handlers, read-only phases, new prompts, "
+              "asynchronous completions; search / system-prompt sessions and a two-field form with three / two "
+              "buffers; fully modelled key sets) and the property oracle on the real objects")
 LEVEL_NOTE = ("trusted: Lean kernel, axioms propext/Classical.choice/Quot.sound only; the hand-written model "
-              "(validated by the correspondence, not proved equal to the Python); in the 'keys' cases handler bodies "
-              "other than undo/redo are parameters (their observed result is fed to the model), in the 'ekeys'/'vkeys' "
-              "cases the model predicts everything from the key names alone")
+              "(validated by the correspondence, not proved equal to the Python); harness/gen_c07.py (prints the "
+              "Binding objects it reads; `kind` = does the handler's own source call undo/redo, observed kinds are "
+              "compared with it on every session); in the 'keys'/'mkeys' cases handler bodies other than undo/redo/"
+              "save/reset are parameters (their observed result is fed to the model), in the 'ekeys'/'vkeys' cases the "
+              "model predicts everything from the key names alone. Two genuine defects are listed as known findings: "
+              "undo()/redo() on a read-only buffer lose history (fix proposed; the model follows the probed flag "
+              "Gen.C07.roChecksFirst), and a grouped run carried into another buffer by a callback takes no snapshot")
 RULE = ("api: every sequence over {save(1), save(0), ins a, ins b, backspace, cursor=0, undo, redo} up to the tier's "
         "length from two initial documents, every sequence of save-then-edit commands/undo/redo up to the tier's "
-        "length, then seeded random sequences (<= 40 calls incl. reset, text/cursor/document setters, unicode); keys: "
-        "(cursor position reports are injected at random key boundaries of the sampled / random sessions) "
+        "length, every sequence over {edit, backspace, undo, redo, read-only on, read-only off} with a read-only "
+        "phase, then seeded random sequences (<= 40 calls incl. reset, text/cursor/document setters, unicode, read-only "
+        "phases); keys: (cursor position reports are injected at random key boundaries of the sampled / random sessions) "
         "every key sequence up to the tier's length over a small emacs and a small vi alphabet (incl. undo keys, a redo "
-        "binding, custom bindings with if_no_repeat / only-on-repeat rules), then seeded random sessions (<= 40 keys "
-        "over ~70 emacs / ~60 vi key tokens, single and multi line, with history, macros, counts, paste, with tails of "
-        "repeated undo/redo); ekeys/vkeys: every sequence up to the tier's length over the fully modelled emacs / vi "
-        "key sets, then random ones (<= 30 keys, multi-line and wide characters); a case is non-trivial when at least "
-        "one undo or redo changed the buffer")
+        "binding, custom bindings with if_no_repeat / only-on-repeat rules, two bindings that raise after their edit), "
+        "every sequence with a read-only phase over a Vi alphabet, every sequence with a new prompt (Buffer.reset + "
+        "Application.reset) over an emacs alphabet, sessions with a completer (asynchronous insertions), then seeded "
+        "random sessions (<= 40 keys over ~70 emacs / ~60 vi key tokens, single and multi line, with history, macros, "
+        "counts, paste, raising bindings, read-only phases, new prompts, with tails of repeated undo/redo); mkeys: every "
+        "sequence containing C-r over an incremental-search alphabet (three buffers), random search / system-prompt "
+        "sessions in both modes, every sequence over a two-field form alphabet with and without an auto-advance "
+        "callback; ekeys/vkeys: every sequence up to the tier's length over the fully modelled emacs / vi key sets, "
+        "then random ones (<= 30 keys, multi-line and wide characters); every session ends with direct undo() calls "
+        "until every tracked buffer's stack is exhausted; a case is non-trivial when at least one undo or redo "
+        "changed a buffer")
 EXHAUSTIVE = True
 EXHAUSTIVE_SCOPE = {
-    "quick": "api: all sequences len<=4 over 8 calls x 2 initial docs, all command sequences len<=4 over 7 commands; "
-             "keys: all sequences len<=2 over 9 emacs keys and 9 vi keys (+150 sampled of len 3-5 each); fully modelled "
-             "emacs keys: all sequences len<=3 over {a, b, backspace, left, c-k, c-_, c-x c-u, redo} (+250 sampled of len 4-5); "
-             "fully modelled vi keys: all sequences len<=3 over {i, a, x, u, escape, redo} (+200 sampled of len 4-6)",
-    "thorough": "api: all sequences len<=5 over 8 calls x 2 initial docs, all command sequences len<=5 over 7 commands; "
-                "keys: all sequences len<=3 over 9 emacs keys and 9 vi keys (+1000 sampled of len 4-6 each); fully "
-                "modelled emacs keys: all sequences len<=4 over {a, b, backspace, left, c-k, c-_, c-x c-u, redo} (+2000 sampled "
-                "of len 5-7); fully modelled vi keys: all sequences len<=4 over {i, a, x, u, escape, redo} (+1500 "
-                "sampled of len 5-8)"}
+    "quick": "api: all sequences len<=4 over 8 calls x 2 initial docs, all command sequences len<=4 over 7 commands, all "
+             "read-only sequences len<=5 over 6 commands; keys: all sequences len<=2 over 11 emacs keys and 10 vi keys "
+             "(+150 sampled of len 3-5 each), all len<=3 with a read-only phase over 7 Vi tokens (+120 sampled), all "
+             "len<=3 with a new prompt over 7 emacs tokens (+80 sampled); mkeys: all len<=3 containing C-r over 7 search "
+             "keys, all len<=3 over 6 form keys (+60 sampled); fully modelled emacs keys: all sequences len<=3 over {a, b, "
+             "backspace, left, c-k, c-_, c-x c-u, redo, c-u} (+250 sampled of len 4-5); fully modelled vi keys: all "
+             "sequences len<=3 over {i, a, A, x, X, u, 2, 3, escape, redo} (+200 sampled of len 4-6)",
+    "thorough": "api: all sequences len<=5 over 8 calls x 2 initial docs, all command sequences len<=5 over 7 commands, "
+                "all read-only sequences len<=6 over 6 commands; keys: all sequences len<=3 over 11 emacs keys and 10 vi "
+                "keys (+1000 sampled of len 4-6 each), all len<=4 with a read-only phase (+1200 sampled), all len<=4 with "
+                "a new prompt (+800 sampled); mkeys: all len<=4 containing C-r over 7 search keys, all len<=4 over 6 "
+                "form keys (+600 sampled); fully modelled emacs keys: all sequences len<=4 over 9 keys (+2000 sampled of "
+                "len 5-7); fully modelled vi keys: all sequences len<=4 over 10 keys (+1500 sampled of len 5-8)"}
 TRUSTED = ["harness/c07.py observes every KeyProcessor._call_handler call by wrapping the bound method on the instance "
-           "(the real method runs unchanged inside) and counts Buffer.undo()/redo()/save_to_undo_stack() calls the same way",
-           "the save_before rule of a binding is read by calling binding.save_before on two stub events (is_repeat False/True); "
-           "in the ekeys/vkeys cases the rules and handler identities are the static tables of the Lean model instead",
-           "Ptk/Model/C07.lean is a hand translation of buffer.py undo machinery, _call_handler, _fix_vi_cursor_position and of "
-           "11 emacs / 6 vi key handlers (correspondence-checked)"]
+           "(the real method runs unchanged inside) and records Buffer.undo()/redo()/save_to_undo_stack()/reset() calls on "
+           "every tracked buffer the same way; Binding.call is wrapped for the duration of one call to see EditReadOnlyBuffer",
+           "harness/gen_c07.py reads the save_before rule of every binding by calling binding.save_before on two stub events "
+           "(is_repeat False/True) and classifies a handler by whether its own source calls undo/redo/save_to_undo_stack; the "
+           "correspondence checks on every session that the Binding objects actually dispatched carry the bits of a table row "
+           "and that no handler of kind 0 was seen calling undo/redo",
+           "Ptk/Model/C07.lean / C07Multi.lean are hand translations of the buffer.py undo machinery, _call_handler, "
+           "KeyProcessor.reset, _process_cpr_response, _fix_vi_cursor_position, KeyPressEvent.arg and of 16 emacs / 10 vi key "
+           "handlers (correspondence-checked); the rules of those keys are looked up in the regenerated table",
+           "read-only behaviour of Buffer.undo()/redo() follows the probed flag Gen.C07.roChecksFirst (theorems cover both values)"]
 ASSUMPTIONS = ["CPython list append/pop and str equality semantics",
-               "one focused buffer per session (keys that move the focus to the search/system buffer are not generated)",
-               "in 'keys' cases handler bodies are parameters: the model is told the (text, cursor) a non-undo handler produced",
+               "in 'keys'/'mkeys' cases handler bodies are parameters: the model is told the (text, cursor) a non-undo handler "
+               "produced on every tracked buffer, and where the focus went",
                "snapshots satisfy cursor <= len(text) (proved for the model: snapshots_valid), so Document() never asserts in undo/redo",
-               "a session = one Buffer.reset(); accept / abort (which reset the buffer) start a new session and are not generated"]
-PARTIAL_SCOPE = ["exceptions raised by handlers (KeyProcessor.reset() on error) and read-only buffers are not modelled "
-                 "(a read-only buffer's undo() pops the stack and then raises EditReadOnlyBuffer)",
-                 "several buffers / focus changes (search, system prompt) are not modelled: save_before acts on app.current_buffer",
-                 "Vi 'u' with a count is modelled as n Buffer.undo() calls in one command (theorems: Body.undo n); there is no redo "
-                 "binding in the library (redo is driven through the Buffer API and a harness-defined binding)",
+               "a handler calls undo()/redo() on the boundary state only (no edit before it in the same command): true of the two "
+               "shipped undo handlers (pinned call sites) and of the harness bindings",
+               "tracked buffers of a PromptSession: default, search, system; Enter is never sent to the system prompt (it would "
+               "run a shell command); accept / abort of the main buffer end the session",
+               "asyncio single-threaded atomicity: an asynchronous completion changes the buffer between two commands, never inside one"]
+PARTIAL_SCOPE = ["Buffer.undo()/redo() on a read-only buffer as SHIPPED drop history entries (known finding, fix proposed): "
+                 "'repeated undo reaches the initial text' and 'redo restores exactly' are proved for sessions without such "
+                 "attempts and for the fixed code (undo_reaches_initial_readonly_partial, undoRO_fixed_keeps_history); "
+                 "soundness (no invented state, reverse chronological order) is proved for the shipped behaviour too",
+                 "several buffers: per buffer, 'reaches the initial text' needs that no text change of that buffer lacks a "
+                 "snapshot (Disciplined of the projection) -- true of search / system prompt (shown on the model, observed on "
+                 "every generated session), false when a callback moves the focus in the middle of a grouped run (known finding)",
+                 "edits made outside a command (async completion, application code) are covered by the soundness theorems always, "
+                 "by 'reaches the initial text' only when a snapshot exists at that moment (ExtOK; observed, not proved, for completions)",
+                 "Vi '.'-repeat does not exist in this library; there is no redo binding (redo is driven through the Buffer API and "
+                 "harness bindings); macros / numeric arguments of emacs keys occur in the sampled sessions with observed bodies only",
                  "KeyBindings caches that re-create Binding objects when bindings are added at run time (is_repeat is identity "
                  "based) are outside the sessions generated here",
-                 "the hypothesis-free theorems cover the fully modelled key sets only; for all other bindings the general "
-                 "theorems apply under WF (handler kind fixed per binding, editing bindings save when not a repeat), which the "
-                 "correspondence observes on every generated session but does not prove for the whole binding table"]
+                 "the fully modelled key sets (text predicted from key names) are all printable characters + 15 emacs keys and 10 Vi keys; for all other shipped "
+                 "bindings the table theorems apply with the handler body as a parameter (its kind must fit the row: checked on "
+                 "every generated session, pinned syntactically by gen_sites_ok, not proved for indirect calls)"]
 
 GROUP_SIG = "undo after run of repeated char insert/delete | run not undone as one group"
+RO_SIG = "Buffer.undo/redo on a read-only buffer | history entries dropped without being restored"
+CROSS_SIG = ("grouped handler continued in another buffer after a focus change made by a callback | "
+             "first edit of that buffer has no snapshot")
 
 # ------------------------------------------------------------------ encoding
 
@@ -114,6 +198,20 @@ def api_line(op):
 
 
 def api_apply(b: Buffer, op):
+    k = op[0]
+    if k == "ro":
+        b._c07_ro[0] = bool(op[1])
+        return
+    if b._c07_ro[0] and k != "cur" and k != "save" and k != "reset":
+        try:
+            _api_apply(b, op)
+        except EditReadOnlyBuffer:
+            pass
+        return
+    _api_apply(b, op)
+
+
+def _api_apply(b: Buffer, op):
     k = op[0]
     if k == "ins":
         b.insert_text(op[1])
@@ -143,8 +241,15 @@ def api_state(b: Buffer):
     return state_line(b.text, b.cursor_position, "N", list(b._undo_stack), list(b._redo_stack))
 
 
+def _api_buffer(case):
+    ro = [False]
+    b = Buffer(document=Document(case["text"], case["cur"]), read_only=Condition(lambda: ro[0]))
+    b._c07_ro = ro
+    return b
+
+
 def api_impl(case):
-    b = Buffer(document=Document(case["text"], case["cur"]))
+    b = _api_buffer(case)
     out = [api_state(b)]
     for op in case["ops"]:
         api_apply(b, op)
@@ -153,7 +258,19 @@ def api_impl(case):
 
 
 def api_model(case):
-    return [f"init {enc_str(case['text'])} {case['cur']}"] + [api_line(op) for op in case["ops"]]
+    out = [f"init {enc_str(case['text'])} {case['cur']}"]
+    ro = False
+    for op in case["ops"]:
+        if op[0] == "ro":
+            ro = bool(op[1])
+            out.append("cpr")                      # no Buffer call: the state is printed unchanged
+        elif ro and op[0] in ("undo", "redo"):
+            out.append(op[0] + "ro")               # Buffer.undo() / redo() on a read-only buffer
+        elif ro and op[0] in ("ins", "delb", "del", "set", "text"):
+            out.append("cpr")                      # EditReadOnlyBuffer before anything is changed (not generated)
+        else:
+            out.append(api_line(op))
+    return out
 
 
 def _greedy_desc(log, restored):
@@ -195,7 +312,8 @@ def api_oracle(case):
     def bad(sig, msg):
         v.append({"signature": sig, "msg": f"{msg}: init=({case['text']!r},{case['cur']}) ops={case['ops'][:i + 1]}"})
 
-    b = Buffer(document=Document(case["text"], case["cur"]))
+    b = _api_buffer(case)
+    ro_lost = False
     log = []            # every state held at a call boundary since the last reset
     init_text = case["text"]
     streak = []         # states restored by the current streak of consecutive changing undos
@@ -206,9 +324,22 @@ def api_oracle(case):
     for i, op in enumerate(case["ops"]):
         pre = (b.text, b.cursor_position)
         log.append(pre)
+        stacks = (list(b._undo_stack), list(b._redo_stack))
         api_apply(b, op)
         post = (b.text, b.cursor_position)
         k = op[0]
+        if k == "ro":
+            continue
+        if b._c07_ro[0] and k in ("undo", "redo"):
+            # read-only: nothing may be restored -- and nothing may be lost
+            if post != pre:
+                bad("Buffer.undo/redo on a read-only buffer | text or cursor changed", "read-only buffer changed")
+            if stacks != (list(b._undo_stack), list(b._redo_stack)):
+                ro_lost = True
+                bad(RO_SIG, f"stacks before {stacks} after {(list(b._undo_stack), list(b._redo_stack))}")
+                chain, exact = [], False
+                streak, streak_log = [], None
+            continue
         if k == "undo":
             if post != pre:
                 if post[0] == pre[0]:
@@ -227,7 +358,8 @@ def api_oracle(case):
         else:
             streak, streak_log = [], None
             if k == "redo":
-                _check_redo(chain, exact, pre, post, i > 0 and case["ops"][i - 1][0] == "undo", bad)
+                if not ro_lost:
+                    _check_redo(chain, exact, pre, post, i > 0 and case["ops"][i - 1][0] == "undo", bad)
                 if post != pre and post not in log:
                     bad("Buffer.redo | restored state never held", "redo invented a state")
             elif k == "save":
@@ -243,9 +375,11 @@ def api_oracle(case):
             if k == "reset":
                 log = []
                 init_text = op[1]
+                ro_lost = False
                 if b._undo_stack or b._redo_stack:
                     bad("Buffer.reset | stacks kept", "reset kept undo/redo entries")
-    if disciplined:
+    if disciplined and not ro_lost:
+        b._c07_ro[0] = False
         n = len(b._undo_stack) + 1
         for _ in range(n):
             b.undo()
@@ -267,15 +401,8 @@ def _case_key(case):
 
 def _probe_rule(binding):
     """the binding's save_before as a function of is_repeat -> (r0, r1)"""
-    out = []
-    for rep in (False, True):
-        ev = types.SimpleNamespace(is_repeat=rep, arg=1, arg_present=False, data="", key_sequence=[],
-                                   previous_key_sequence=[])
-        try:
-            out.append(1 if binding.save_before(ev) else 0)
-        except Exception:
-            out.append(1)
-    return out
+    r0, r1 = gen_c07.probe_rule(binding)
+    return [1 if r0 else 0, 1 if r1 else 0]
 
 
 def _mk_key(name):
@@ -287,14 +414,21 @@ def _mk_key(name):
 
 
 KEY_DATA = {"c-z": "\x1a", "c-m": "\r", "c-i": "\t", "c-j": "\n", "escape": "\x1b", "c-h": "\x7f"}
+MARKERS = ("cpr", "kp_reset", "restart", "ext", "ro", "focus")
+
+
+class _Boom(Exception):
+    """raised by the harness bindings f6 / f7"""
 
 
 async def _session(case):
     from prompt_toolkit import PromptSession
     from prompt_toolkit.application.current import set_app
+    from prompt_toolkit.buffer import Buffer, EditReadOnlyBuffer
     from prompt_toolkit.clipboard import InMemoryClipboard
-    from prompt_toolkit.enums import EditingMode
-    from prompt_toolkit.filters import vi_navigation_mode
+    from prompt_toolkit.completion import WordCompleter
+    from prompt_toolkit.enums import SYSTEM_BUFFER, EditingMode
+    from prompt_toolkit.filters import Condition, vi_navigation_mode
     from prompt_toolkit.history import InMemoryHistory
     from prompt_toolkit.input import DummyInput
     from prompt_toolkit.key_binding import KeyBindings
@@ -322,46 +456,127 @@ async def _session(case):
         event.current_buffer.redo()
         event.current_buffer.redo()
 
+    @kb.add("f7")
+    def _boom(event):
+        # a handler that fails half way: the default rule has already saved
+        event.current_buffer.insert_text("#")
+        raise _Boom("f7")
+
+    @kb.add("f6", save_before=lambda e: not e.is_repeat)
+    def _boom_grouped(event):
+        # a grouped handler whose every second consecutive call fails after its edit
+        event.current_buffer.insert_text("%")
+        if event.current_buffer.text.endswith("%%"):
+            raise _Boom("f6")
+
+    multi = bool(case.get("multi"))
     mode = EditingMode.VI if case["mode"] == "vi" else EditingMode.EMACS
     hist = InMemoryHistory(list(case.get("history") or []))
-    session = PromptSession(input=DummyInput(), output=DummyOutput(), key_bindings=kb, editing_mode=mode,
-                            multiline=bool(case.get("multiline")), history=hist, clipboard=InMemoryClipboard())
-    app = session.app
+    if case.get("form"):
+        # a full-screen form with two text fields A, B (not a PromptSession): `c-n` moves the focus with a key
+        # binding; with "advance": n the field A hands the focus to B from its on_text_insert callback as soon as
+        # it holds n characters (an auto-advancing input mask) -- a focus change that is not a command
+        from prompt_toolkit.application import Application
+        from prompt_toolkit.layout import BufferControl, HSplit, Layout, Window
+
+        fa, fb = Buffer(name="A"), Buffer(name="B")
+        wa, wb = Window(BufferControl(fa)), Window(BufferControl(fb))
+
+        @kb.add("c-n")
+        def _next(event):
+            event.app.layout.focus(wb if event.app.layout.has_focus(wa) else wa)
+
+        app = Application(layout=Layout(HSplit([wa, wb]), focused_element=wa), input=DummyInput(),
+                          output=DummyOutput(), key_bindings=kb, editing_mode=mode, clipboard=InMemoryClipboard())
+        fb.reset(Document(case.get("text2", ""), len(case.get("text2", ""))))
+        if case.get("advance"):
+            def _adv(_):
+                if len(fa.text) >= case["advance"]:
+                    app.layout.focus(wb)
+            fa.on_text_insert += _adv
+        buf, bufs = fa, [fa, fb]
+        multi = True
+    else:
+        kw = {}
+        if case.get("completer"):
+            kw = dict(completer=WordCompleter(["alpha", "alphabet", "alpine", "beta"]), complete_while_typing=False)
+        session = PromptSession(input=DummyInput(), output=DummyOutput(), key_bindings=kb, editing_mode=mode,
+                                multiline=bool(case.get("multiline")), history=hist, clipboard=InMemoryClipboard(),
+                                enable_system_prompt=multi, **kw)
+        app = session.app
+        buf = session.default_buffer
+        bufs = [buf]
+        if multi:
+            bufs += [session.search_buffer, app.layout.get_buffer_by_name(SYSTEM_BUFFER)]
     app.timeoutlen = None
     app.ttimeoutlen = None
-    buf = session.default_buffer
+    nb = len(bufs)
+    sysbuf = bufs[2] if (multi and nb > 2) else None
+    ro = {"on": False}
+    buf.read_only = Condition(lambda: ro["on"])
     kp = app.key_processor
     recs = []
-    tr = {"recs": recs, "note": None, "init": (case["text"], case["cur"])}
+    tr = {"recs": recs, "note": None, "init": (case["text"], case["cur"]), "nb": nb}
     hids = {}
-    cur = {"atoms": None, "steps": None, "saved": 0, "in_redo": False}
+    cur = {"on": False, "atoms": None, "steps": None, "saved": None}
 
-    o_undo, o_redo, o_save = buf.undo, buf.redo, buf.save_to_undo_stack
+    def snap(b):
+        return (b.text, b.cursor_position)
 
-    def w_undo():
-        pre = (buf.text, buf.cursor_position)
-        o_undo()
-        if cur["atoms"] is not None:
-            cur["atoms"].append("U")
-            cur["steps"].append(("U", pre, (buf.text, buf.cursor_position)))
+    def full(i):
+        b = bufs[i]
+        return {"post": snap(b), "U": list(b._undo_stack), "R": list(b._redo_stack)}
 
-    def w_redo():
-        pre = (buf.text, buf.cursor_position)
-        cur["in_redo"] = True
-        try:
-            o_redo()
-        finally:
-            cur["in_redo"] = False
-        if cur["atoms"] is not None:
-            cur["atoms"].append("R")
-            cur["steps"].append(("R", pre, (buf.text, buf.cursor_position)))
+    def bidx(b):
+        for i, x in enumerate(bufs):
+            if x is b:
+                return i
+        return -1
 
-    def w_save(clear_redo_stack=True):
-        if not cur["in_redo"]:
-            cur["saved"] += 1
-        o_save(clear_redo_stack=clear_redo_stack)
+    originals = []
 
-    buf.undo, buf.redo, buf.save_to_undo_stack = w_undo, w_redo, w_save
+    def wrap(bi, b):
+        o_undo, o_redo, o_save, o_reset = b.undo, b.redo, b.save_to_undo_stack, b.reset
+        originals.append((b, o_undo, o_redo, o_save, o_reset))
+        st = {"in_redo": False}
+
+        def w_undo():
+            pre = snap(b)
+            is_ro = bool(b.read_only())
+            try:
+                o_undo()
+            finally:
+                if cur["on"]:
+                    cur["atoms"][bi].append("UR" if is_ro else "U")
+                    cur["steps"][bi].append(("U", pre, snap(b), is_ro))
+
+        def w_redo():
+            pre = snap(b)
+            is_ro = bool(b.read_only())
+            st["in_redo"] = True
+            try:
+                o_redo()
+            finally:
+                st["in_redo"] = False
+                if cur["on"]:
+                    cur["atoms"][bi].append("RR" if is_ro else "R")
+                    cur["steps"][bi].append(("R", pre, snap(b), is_ro))
+
+        def w_save(clear_redo_stack=True):
+            if not st["in_redo"] and cur["on"]:
+                cur["saved"][bi] += 1
+            o_save(clear_redo_stack=clear_redo_stack)
+
+        def w_reset(document=None, append_to_history=False):
+            o_reset(document, append_to_history)
+            if cur["on"]:
+                cur["atoms"][bi] += ["X", enc_str(b.text), str(b.cursor_position)]
+                cur["steps"][bi].append(("X", None, snap(b), False))
+
+        b.undo, b.redo, b.save_to_undo_stack, b.reset = w_undo, w_redo, w_save, w_reset
+
+    for i, b in enumerate(bufs):
+        wrap(i, b)
 
     o_call = kp._call_handler
     fed = {"i": -1, "key": None}
@@ -371,107 +586,203 @@ async def _session(case):
             return "N"
         return hids.setdefault(id(h), (len(hids), h))[0]
 
+    def n_cpr_before(i):
+        return sum(1 for n_, _ in case["ops"][:max(i, 0)] if n_ == "<cpr>")
+
     def spy(handler, key_sequence):
-        pre = (buf.text, buf.cursor_position)
+        focus_pre = bidx(app.current_buffer)
+        pres = [snap(b) for b in bufs]
         insert = (app.vi_state.input_mode == InputMode.INSERT) if mode == EditingMode.VI else True
-        sel = buf.selection_state is not None
-        cur["atoms"], cur["steps"], cur["saved"], cur["fix_nav"] = [], [], 0, False
+        sel = app.current_buffer.selection_state is not None
+        cur.update(on=True, atoms=[[] for _ in bufs], steps=[[] for _ in bufs], saved=[0] * nb, fix_nav=False,
+                   fix_buf=-1, ro_exc=False)
+        o_hcall = handler.call
+
+        def hcall(event):
+            try:
+                return o_hcall(event)
+            except EditReadOnlyBuffer:
+                cur["ro_exc"] = True
+                raise
+
+        handler.call = hcall
+        out = "ok"
         try:
             o_call(handler, key_sequence)
         except BaseException:
-            # the handler raised (KeyProcessor.reset() follows): not a completed command, the session ends
-            cur["atoms"], cur["steps"] = None, None
-            tr["raised"] = True
+            out = "raised"
             raise
-        else:
-            atoms, cur["atoms"] = cur["atoms"], None
-            steps, cur["steps"] = cur["steps"], None
-            if atoms and cur["fix_nav"]:
-                atoms.append("F")       # KeyProcessor._fix_vi_cursor_position ran in navigation mode
+        finally:
+            try:
+                del handler.call
+            except AttributeError:
+                pass
+            cur["on"] = False
+            if out == "ok" and cur["ro_exc"]:
+                out = "ro"
+            atoms, steps = cur["atoms"], cur["steps"]
+            if cur["fix_nav"] and 0 <= cur["fix_buf"] < nb and atoms[cur["fix_buf"]]:
+                atoms[cur["fix_buf"]].append("F")     # KeyProcessor._fix_vi_cursor_position ran in navigation mode
             r0, r1 = _probe_rule(handler)
-            recs.append({
-                "h": hid_of(handler), "r0": r0, "r1": r1, "atoms": atoms, "steps": steps, "saved": cur["saved"],
-                "pre": pre, "post": (buf.text, buf.cursor_position),
-                "prev": hid_of(kp._previous_handler),
-                "U": list(buf._undo_stack), "R": list(buf._redo_stack),
-                "fed": fed["i"], "fedx": fed["i"] - sum(1 for n_, _ in case["ops"][:max(fed["i"], 0)] if n_ == "<cpr>"),
+            hmod = getattr(handler.handler, "__module__", "") or ""
+            B = []
+            for i in range(nb):
+                d = full(i)
+                d.update(pre=pres[i], atoms=atoms[i], steps=steps[i], saved=cur["saved"][i])
+                B.append(d)
+            rec = {
+                "h": hid_of(handler), "r0": r0, "r1": r1, "out": out, "B": B,
+                "focus_pre": focus_pre, "focus_post": bidx(app.current_buffer),
+                "prev": "N" if out == "raised" else hid_of(kp._previous_handler),
+                "fed": fed["i"], "fedx": fed["i"] - n_cpr_before(fed["i"]),
                 "key": fed["key"], "nkeys": len(key_sequence),
                 "name": getattr(handler.handler, "__name__", "?"), "insert": insert and not sel,
                 "bkeys": [getattr(x, "value", x) for x in handler.keys],
                 "ins_after": app.vi_state.input_mode == InputMode.INSERT,
                 "data": key_sequence[-1].data if key_sequence else "",
-            })
+                "arg_after": kp.arg,
+                "row": list(gen_c07.row_key(handler)) if hmod.startswith("prompt_toolkit") else None,
+            }
+            rec.update({k: B[0][k] for k in ("pre", "post", "atoms", "steps", "saved", "U", "R")})
+            recs.append(rec)
+            for i in range(nb):
+                last[i] = B[i]["post"]
 
     kp._call_handler = spy
     o_fix = kp._fix_vi_cursor_position
 
     def w_fix(event):
         cur["fix_nav"] = bool(vi_navigation_mode())
+        cur["fix_buf"] = bidx(app.current_buffer)
         o_fix(event)
 
     kp._fix_vi_cursor_position = w_fix
+    last = [None] * nb
+
+    def marker(kind, **kw):
+        d = {kind: True, "prev": hid_of(kp._previous_handler), "fed": fed["i"], "B": [full(i) for i in range(nb)],
+             "focus_post": bidx(app.current_buffer)}
+        d.update(full(0))
+        d.update(kw)
+        recs.append(d)
+        for i in range(nb):
+            last[i] = d["B"][i]["post"]
+
+    def check_ext():
+        # a change of text / cursor that no handler call made (asynchronous completion, …)
+        for i in range(nb):
+            if last[i] is not None and snap(bufs[i]) != last[i]:
+                marker("ext", b=i)
+
+    async def settle():
+        for _ in range(6 if case.get("completer") else 1):
+            await asyncio.sleep(0)
 
     with set_app(app):
         buf.reset(Document(case["text"], case["cur"]))
+        for i in range(nb):
+            last[i] = snap(bufs[i])
+        tr["docs"] = list(last)
         if case.get("history"):
             buf.load_history_if_not_yet_loaded()
             for _ in range(50):
                 await asyncio.sleep(0)
                 if buf._load_history_task is None or buf._load_history_task.done():
                     break
-        try:
-            for i, (name, data) in enumerate(case["ops"]):
-                fed["i"], fed["key"] = i, name
-                if name == "<flush>":
+        for i, (name, data) in enumerate(case["ops"]):
+            fed["i"], fed["key"] = i, name
+            check_ext()
+            if name == "<flush>":
+                try:
                     kp.feed(_Flush)
                     kp.process_keys()
-                    continue
-                if name == "<cpr>":
-                    # a cursor position report (ESC [ row ; col R) arriving at this key boundary: it is
-                    # answered by KeyProcessor._process_cpr_response, not by _call_handler
-                    kp.feed(KeyPress(Keys.CPRResponse, "\x1b[3;1R"))
-                    kp.process_keys()
-                    recs.append({"cpr": True, "post": (buf.text, buf.cursor_position),
-                                 "prev": hid_of(kp._previous_handler), "U": list(buf._undo_stack),
-                                 "R": list(buf._redo_stack), "fed": i})
-                    continue
-                if name == "<kpreset>":
-                    # KeyProcessor.reset() (what Application.reset() does): forgets the previous handler
-                    kp.reset()
-                    recs.append({"kp_reset": True, "post": (buf.text, buf.cursor_position),
-                                 "prev": hid_of(kp._previous_handler), "U": list(buf._undo_stack),
-                                 "R": list(buf._redo_stack), "fed": i})
-                    continue
-                if name in ("c-m", "c-j"):
-                    # Enter accepts (and resets) outside multiline insert mode: a new session, not generated
+                except _Boom:
+                    pass
+                except Exception as e:  # an exception of the library itself (Application.exit() without a run): the session ends
+                    tr["note"] = f"exception {type(e).__name__}: {str(e)[:120]}"
+                    break
+                continue
+            if name == "<cpr>":
+                # a cursor position report (ESC [ row ; col R) arriving at this key boundary: it is
+                # answered by KeyProcessor._process_cpr_response, not by _call_handler
+                kp.feed(KeyPress(Keys.CPRResponse, "\x1b[3;1R"))
+                kp.process_keys()
+                marker("cpr")
+                continue
+            if name == "<kpreset>":
+                # KeyProcessor.reset() (what Application.reset() does): forgets the previous handler
+                kp.reset()
+                marker("kp_reset")
+                continue
+            if name == "<ro>":
+                ro["on"] = bool(data)
+                marker("ro", on=bool(data))
+                continue
+            if name == "<restart>":
+                # a new prompt on the same PromptSession: prompt() resets the buffer to the default document
+                # and Application.run_async() calls Application.reset() (-> KeyProcessor.reset())
+                t, c = data
+                ro["on"] = False
+                buf.reset(Document(t, c))
+                app.reset()
+                marker("restart", doc=(t, c))
+                continue
+            focused = app.current_buffer
+            if name in ("c-m", "c-j"):
+                if focused is buf:
+                    # Enter accepts (and resets) outside multiline insert mode: the end of the session, not generated
                     ins = (app.vi_state.input_mode == InputMode.INSERT) if mode == EditingMode.VI else True
                     if not (case.get("multiline") and ins):
                         continue
-                if data is None:
-                    data = KEY_DATA.get(name)
+                elif focused is sysbuf:
+                    continue        # Enter in the system prompt would run a shell command
+            if data is None:
+                data = KEY_DATA.get(name)
+            n0 = len(recs)
+            try:
                 kp.feed(KeyPress(_mk_key(name), data) if data is not None else KeyPress(_mk_key(name)))
                 kp.process_keys()
-                await asyncio.sleep(0)
-                if app.current_buffer is not buf:
-                    tr["note"] = f"focus left the buffer at key {i} ({name})"
-                    break
-                if app.is_done:
-                    tr["note"] = f"application done at key {i} ({name})"
-                    break
-            else:
-                fed["i"], fed["key"] = len(case["ops"]), "<flush>"
+            except _Boom:
+                # process_keys: self.reset(); self.empty_queue(); raise  -- the application goes on
+                if len(recs) > n0:
+                    recs[-1]["prev"] = hid_of(kp._previous_handler)
+            except Exception as e:  # an exception of the library itself: the session ends here
+                tr["note"] = f"exception {type(e).__name__}: {str(e)[:120]}"
+                break
+            await settle()
+            if app.current_buffer is not buf and not multi:
+                tr["note"] = f"focus left the buffer at key {i} ({name})"
+                break
+            if multi and bidx(app.current_buffer) < 0:
+                tr["note"] = f"focus on an untracked buffer at key {i} ({name})"
+                break
+            if app.is_done:
+                tr["note"] = f"application done at key {i} ({name})"
+                break
+        else:
+            fed["i"], fed["key"] = len(case["ops"]), "<flush>"
+            check_ext()
+            try:
                 kp.feed(_Flush)
                 kp.process_keys()
-        except Exception as e:  # a handler raised: KeyProcessor.reset(); the session ends here
-            tr["note"] = f"exception {type(e).__name__}: {str(e)[:120]}"
-        # tail: direct Buffer.undo() calls until nothing is left
+            except _Boom:
+                pass
+            except Exception as e:
+                tr["note"] = f"exception {type(e).__name__}: {str(e)[:120]}"
+            await settle()
+            check_ext()
+        # tail: direct Buffer.undo() calls until nothing is left, on every tracked buffer
+        for b, o_undo, o_redo, o_save, o_reset in originals:
+            b.undo, b.redo, b.save_to_undo_stack, b.reset = o_undo, o_redo, o_save, o_reset
+        ro["on"] = False
         tail = []
-        buf.undo, buf.redo, buf.save_to_undo_stack = o_undo, o_redo, o_save
-        if app.current_buffer is buf and not tr.get("raised"):
-            for _ in range(len(buf._undo_stack) + 1):
-                buf.undo()
-                tail.append({"post": (buf.text, buf.cursor_position), "U": list(buf._undo_stack),
-                             "R": list(buf._redo_stack), "prev": hid_of(kp._previous_handler)})
+        for bi, b in enumerate(bufs):
+            for _ in range(len(b._undo_stack) + 1):
+                b.undo()
+                d = {"b": bi, "prev": hid_of(kp._previous_handler), "B": [full(i) for i in range(nb)],
+                     "focus_post": bidx(app.current_buffer)}
+                d.update(full(0))
+                tail.append(d)
         tr["tail"] = tail
         # cancel whatever background tasks the session created
         for t in list(app._background_tasks):
@@ -489,29 +800,124 @@ def trace(case):
     return t
 
 
+def _atoms_line(d):
+    """the body of one buffer in one call: its undo / redo / save / reset atoms, or the observed result"""
+    if d["atoms"]:
+        return " ".join(d["atoms"])
+    return f"E {enc_str(d['post'][0])} {d['post'][1]}"
+
+
+def _row_lines(tr):
+    """one `rowhas` line per distinct shipped binding that ran: its probed bits and kind must be a row of the table"""
+    seen, out = set(), []
+    for r in tr["recs"]:
+        row = r.get("row")
+        if row and tuple(row) not in seen:
+            seen.add(tuple(row))
+            out.append(row)
+    return out
+
+
 def keys_model(case):
     tr = trace(case)
     out = [f"init {enc_str(case['text'])} {case['cur']}"]
     for r in tr["recs"]:
         if r.get("kp_reset"):
             out.append("kpreset")
-            continue
-        if r.get("cpr"):
+        elif r.get("cpr"):
             out.append("cpr")
+        elif r.get("ro"):
             continue
-        atoms = " ".join(r["atoms"]) if r["atoms"] else f"E {enc_str(r['post'][0])} {r['post'][1]}"
-        out.append(f"call {r['h']} {r['r0']} {r['r1']} {atoms}")
+        elif r.get("restart"):
+            out.append(f"restart {enc_str(r['doc'][0])} {r['doc'][1]}")
+        elif r.get("ext"):
+            out.append(f"ext {enc_str(r['post'][0])} {r['post'][1]}")
+        else:
+            out.append(f"callo {r['out']} {r['h']} {r['r0']} {r['r1']} {_atoms_line(r)}")
     out += ["undo"] * len(tr["tail"])
+    for name, keys, r0, r1, kind in _row_lines(tr):
+        out.append(f"rowhas {enc_str(name)} {enc_str(keys)} {int(r0)}{int(r1)}{kind}")
     return out
+
+
+def _observed_kind_ok(tr, row):
+    """a handler whose source calls neither undo nor redo must not have been seen calling them"""
+    for r in tr["recs"]:
+        if r.get("row") and tuple(r["row"]) == tuple(row):
+            for d in r["B"]:
+                ks = {a for a in d["atoms"] if a in ("U", "UR", "R", "RR")}
+                if ks and row[4] == 0:
+                    return False
+                if ks & {"U", "UR"} and row[4] == 2 or ks & {"R", "RR"} and row[4] == 1:
+                    return False
+    return True
 
 
 def keys_impl(case):
     tr = trace(case)
     out = [state_line(case["text"], case["cur"], "N", [], [])]
     for r in tr["recs"]:
+        if r.get("ro"):
+            continue
         out.append(state_line(r["post"][0], r["post"][1], r["prev"], r["U"], r["R"]))
     for t in tr["tail"]:
         out.append(state_line(t["post"][0], t["post"][1], t["prev"], t["U"], t["R"]))
+    for row in _row_lines(tr):
+        out.append("1" if _observed_kind_ok(tr, row) else "observed-kind-differs")
+    return out
+
+
+# ---- several buffers
+def _m_state(r, nb):
+    s = f"F {r['focus_post']} P {r['prev']}"
+    for i in range(nb):
+        d = r["B"][i]
+        s += f" | {enc_str(d['post'][0])} {d['post'][1]} U {enc_stack(d['U'])} R {enc_stack(d['R'])}"
+    return s
+
+
+def mkeys_model(case):
+    tr = trace(case)
+    nb = tr["nb"]
+    out = ["minit 0 " + " ".join(f"{enc_str(t)} {c}" for t, c in tr["docs"])]
+    for r in tr["recs"]:
+        if r.get("kp_reset"):
+            out.append("mkpreset")
+        elif r.get("cpr"):
+            out.append("mcpr")
+        elif r.get("ro"):
+            continue
+        elif r.get("ext"):
+            d = r["B"][r["b"]]
+            out.append(f"mext {r['b']} {enc_str(d['post'][0])} {d['post'][1]}")
+        else:
+            parts = []
+            for i, d in enumerate(r["B"]):
+                if d["atoms"] or d["post"] != d["pre"]:
+                    a = _atoms_line(d)
+                    parts.append(f"{i} {len(a.split(' '))} {a}")
+            foc = r["focus_post"] if r["focus_post"] != r["focus_pre"] else "-"
+            line = f"mcall {r['out']} {r['h']} {r['r0']} {r['r1']} {foc}"
+            out.append(line + (" " + " ".join(parts) if parts else ""))
+    out += [f"mact {t['b']} U" for t in tr["tail"]]
+    for name, keys, r0, r1, kind in _row_lines(tr):
+        out.append(f"rowhas {enc_str(name)} {enc_str(keys)} {int(r0)}{int(r1)}{kind}")
+    return out
+
+
+def mkeys_impl(case):
+    tr = trace(case)
+    nb = tr["nb"]
+    first = {"focus_post": 0, "prev": "N", "B": [{"post": tuple(d), "U": [], "R": []} for d in tr["docs"]]}
+    out = [_m_state(first, nb)]
+    for r in tr["recs"]:
+        if r.get("ro"):
+            continue
+        out.append(_m_state(r, nb))
+    for t in tr["tail"]:
+        out.append(_m_state(t, nb))
+    for row in _row_lines(tr):
+        out.append("1" if _observed_kind_ok(tr, row) else "observed-kind-differs")
     return out
 
 
@@ -519,7 +925,7 @@ def _is_char_insert(r):
     """a handler call that inserted >= 1 copies of the typed printable character at the cursor"""
     d = r["data"]
     if not (r["insert"] and r["nkeys"] == 1 and isinstance(d, str) and len(d) == 1 and d.isprintable()
-            and r["key"] == d and not r["atoms"]):
+            and r["key"] == d and not r["atoms"] and r.get("out", "ok") == "ok"):
         return False
     (t0, c0), (t1, c1) = r["pre"], r["post"]
     k = len(t1) - len(t0)
@@ -527,7 +933,7 @@ def _is_char_insert(r):
 
 
 def _is_char_delete(r, key):
-    if not (r["insert"] and r["nkeys"] == 1 and r["key"] == key and not r["atoms"]):
+    if not (r["insert"] and r["nkeys"] == 1 and r["key"] == key and not r["atoms"] and r.get("out", "ok") == "ok"):
         return False
     (t0, c0), (t1, c1) = r["pre"], r["post"]
     k = len(t0) - len(t1)
@@ -538,33 +944,102 @@ def _is_char_delete(r, key):
     return c1 == c0 and t1 == t0[:c0] + t0[c0 + k:]
 
 
+def _view(tr, bi):
+    """the session as buffer `bi` sees it: every record with that buffer's pre / post / atoms / steps / stacks;
+    a call during which the buffer was reset becomes a restart marker (a new session for that buffer)"""
+    out = []
+    for r in tr["recs"]:
+        if any(r.get(m) for m in MARKERS):
+            if r.get("ext") and r["b"] != bi:
+                continue
+            d = dict(r)
+            d.update(r["B"][bi])
+            if r.get("restart") and bi != 0:
+                continue
+            out.append(d)
+            continue
+        d = dict(r)
+        d.update(r["B"][bi])
+        if "X" in d["atoms"]:
+            out.append({"restart": True, "doc": d["post"], "post": d["post"], "U": d["U"], "R": d["R"], "fed": r["fed"]})
+            continue
+        if r["focus_pre"] != bi:
+            d["insert"] = False          # typed characters went to another buffer
+        d["focused"] = r["focus_pre"] == bi
+        out.append(d)
+    return out
+
+
 def keys_oracle(case):
     tr = trace(case)
-    # KeyProcessor.reset() markers and cursor position reports are not commands
-    recs = [r for r in tr["recs"] if not r.get("kp_reset") and not r.get("cpr")]
+    v = []
+    for bi in range(tr["nb"]):
+        v += _buffer_oracle(case, tr, bi)
+    return v
+
+
+def _buffer_oracle(case, tr, bi):
+    recs = _view(tr, bi)
     v = []
     names = [k for k, _ in case["ops"]]
     odd = "f10" in names        # a harness binding that edits without saving: only soundness is required
+    tag = "" if bi == 0 else f"[buffer {bi}] "
 
     def bad(sig, msg, i):
         r = recs[i]
         v.append({"signature": sig,
-                  "msg": f"{msg}: mode={case['mode']} init=({case['text']!r},{case['cur']}) "
-                         f"keys={names[:r['fed'] + 1]} call#{i} {r['name']} pre={r['pre']} steps={r['steps']} "
-                         f"post={r['post']}"})
+                  "msg": f"{tag}{msg}: mode={case['mode']} init=({case['text']!r},{case['cur']}) "
+                         f"keys={names[:r.get('fed', 0) + 1]} call#{i} {r.get('name')} pre={r.get('pre')} "
+                         f"steps={r.get('steps')} post={r.get('post')}"})
 
-    log = []                     # states at command boundaries (before every handler call)
+    log = []                     # states at command boundaries (before every handler call) of this session
     streak, streak_log = [], None
     chain, exact = [], True      # states the pending redos must restore (top last)
     prev_step = None
+    init_text = tr["docs"][bi][0]
+    cross_lost = False           # a grouped handler went on in this buffer after a focus change that was no command
+    ro_lost = False              # the (known) read-only defect destroyed history in this session
+    ext_uncovered = False        # text changed outside a command while no snapshot existed
+    is_ro = False
+    seg_start = 0                # index of the first record of the current session (after the last restart)
     for i, r in enumerate(recs):
+        if r.get("restart"):
+            log, streak, streak_log, chain, exact, prev_step = [], [], None, [], True, None
+            init_text = r["doc"][0]
+            ro_lost = ext_uncovered = False
+            seg_start = i + 1
+            if r["U"] or r["R"]:
+                bad("Buffer.reset | stacks kept", "a new prompt started with undo / redo entries", i)
+            continue
+        if r.get("ro"):
+            is_ro = r["on"]
+            continue
+        if r.get("cpr") or r.get("kp_reset") or r.get("focus"):
+            continue
+        if r.get("ext"):
+            # an edit outside a command: not a boundary; it is "covered" when a snapshot exists
+            j = i - 1
+            while j >= 0 and recs[j].get("ro"):
+                j -= 1
+            had_stack = bool(recs[j]["U"]) if j >= seg_start else False
+            prev_text = recs[j]["post"][0] if j >= seg_start else init_text
+            if not had_stack and r["post"][0] != prev_text:
+                ext_uncovered = True
+            if chain and r["post"][0] != prev_text:
+                chain, exact = [], False
+            continue
         pre, post = tuple(r["pre"]), tuple(r["post"])
         log.append(pre)
         if r["steps"]:
-            for kind, spre, spost in r["steps"]:
+            for kind, spre, spost, sro in r["steps"]:
                 spre, spost = tuple(spre), tuple(spost)
                 if log[-1] != spre:
                     log.append(spre)     # a state held between two undo()/redo() calls of one handler
+                if sro:
+                    # undo() / redo() on a read-only buffer: nothing may be restored -- and nothing may be lost
+                    if spost != spre:
+                        bad("Buffer.undo/redo on a read-only buffer | text or cursor changed", "read-only buffer changed", i)
+                    continue
                 if kind == "U":
                     if spost != spre:
                         if spost[0] == spre[0]:
@@ -581,32 +1056,61 @@ def keys_oracle(case):
                         chain.append(spre)
                 else:
                     streak, streak_log = [], None
-                    _check_redo(chain, exact, spre, spost, prev_step == "U", bad, i)
+                    if not ro_lost:
+                        _check_redo(chain, exact, spre, spost, prev_step == "U", bad, i)
+                    else:
+                        chain, exact = [], False
                     if spost != spre and spost not in log:
                         bad("Buffer.redo | restored state never held at an earlier boundary", "redo invented a state", i)
                 prev_step = kind
-            if post[0] != tuple(r["steps"][-1][2])[0]:
+            if any(s[3] for s in r["steps"]):
+                # read-only attempt: compare the stacks with those before the command (the boundary of an undo
+                # binding never saves)
+                j = i - 1
+                while j >= 0 and (recs[j].get("ro") or recs[j].get("cpr") or recs[j].get("kp_reset")):
+                    j -= 1
+                if j >= 0 and not r["saved"] and (recs[j]["U"] != r["U"] or recs[j]["R"] != r["R"]):
+                    ro_lost = True
+                    bad(RO_SIG, f"stacks before {recs[j]['U']} / {recs[j]['R']} after {r['U']} / {r['R']}", i)
+                    chain, exact = [], False
+            elif post[0] != tuple(r["steps"][-1][2])[0]:
                 bad("undo/redo command | text changed after the restore", "handler changed the restored text", i)
         else:
             streak, streak_log = [], None
             prev_step = None
+        if (not r["steps"] and not r["saved"] and r.get("focused", True) and post[0] != pre[0] and i > 0
+                and r["r0"] and not r["r1"] and not odd):
+            # an edit by a grouped handler that took no snapshot: legitimate inside a run in THIS buffer;
+            # if the previous command of the application started with the focus on another buffer, the run
+            # was carried over by a focus change that was not a command, and nothing of this buffer was saved
+            j = i - 1
+            while j >= 0 and any(recs[j].get(m) for m in MARKERS):
+                j -= 1
+            if j >= 0 and recs[j].get("focused") is False and recs[j]["h"] == r["h"]:
+                cross_lost = True
+                bad(CROSS_SIG, "no snapshot of this buffer was taken before its text changed", i)
         if r["saved"] and not r["steps"]:
             # the command boundary of a non-undo/redo command saved: a new edit, the redo history goes.
             # (An undo / redo command is NOT a new edit: the states undone before it must stay redoable,
             # whichever undo key — C-_ or C-x C-u — was used.)
             chain, exact = [], True
         if not r["steps"]:
-            if post[0] != pre[0] and r["R"] and not odd:
+            if post[0] != pre[0] and r["R"] and not odd and r.get("focused", True):
                 bad("edit command | redo history kept", "a new edit did not discard the redo stack", i)
+            if post[0] != pre[0] and not r.get("focused", True):
+                # edited by a command that started with the focus elsewhere: no snapshot of its own
+                if chain:
+                    chain, exact = [], False
 
     # grouping: maximal run of char insertions (or backspaces, or deletes), then commands that keep the
     # text, then a single undo  ==>  the state before the run comes back
+    cmds = [r for r in recs if not any(r.get(m) for m in MARKERS)]
     if not odd:
         i = 0
-        n = len(recs)
+        n = len(cmds)
         while i < n:
-            kinds = [("ins", _is_char_insert(recs[i])), ("c-h", _is_char_delete(recs[i], "c-h")),
-                     ("delete", _is_char_delete(recs[i], "delete"))]
+            kinds = [("ins", _is_char_insert(cmds[i])), ("c-h", _is_char_delete(cmds[i], "c-h")),
+                     ("delete", _is_char_delete(cmds[i], "delete"))]
             kind = next((k for k, ok in kinds if ok), None)
             if kind is None:
                 i += 1
@@ -616,42 +1120,54 @@ def keys_oracle(case):
                 return _is_char_insert(r) if kind == "ins" else _is_char_delete(r, kind)
             j = i
             # consecutive typed keys; a CPR response in between must be invisible (fedx skips them)
-            while (j + 1 < n and member(recs[j + 1]) and recs[j + 1]["fedx"] == recs[j]["fedx"] + 1
-                   and recs[j + 1]["h"] == recs[i]["h"]):
+            while (j + 1 < n and member(cmds[j + 1]) and cmds[j + 1]["fedx"] == cmds[j]["fedx"] + 1
+                   and cmds[j + 1]["h"] == cmds[i]["h"]):
                 j += 1
-            left_ok = not (i > 0 and recs[i - 1]["h"] == recs[i]["h"])
+            left_ok = not (i > 0 and cmds[i - 1]["h"] == cmds[i]["h"] and cmds[i - 1].get("out", "ok") != "raised")
+            # nothing but commands may lie between the members and up to the undo (no restart / ext / kp reset / ro)
             k = j + 1
-            while k < n and not recs[k]["atoms"] and recs[k]["post"][0] == recs[k]["pre"][0] \
-                    and recs[k]["h"] != recs[i]["h"]:
+            while k < n and not cmds[k]["atoms"] and cmds[k]["post"][0] == cmds[k]["pre"][0] \
+                    and cmds[k]["h"] != cmds[i]["h"]:
                 k += 1
-            if (left_ok and k < n and recs[k]["steps"] and recs[k]["steps"][0][0] == "U"
-                    and tuple(recs[j]["post"])[0] != tuple(recs[i]["pre"])[0]):
-                got = tuple(recs[k]["steps"][0][2])
-                if got != tuple(recs[i]["pre"]):
-                    bad(GROUP_SIG, f"run of {j - i + 1} '{kind}' calls starting at call#{i} then undo restored "
-                                   f"{got} instead of {recs[i]['pre']}", k)
+            clean = True
+            if k < n:
+                a, b = recs.index(cmds[i]), recs.index(cmds[k])
+                clean = all(r.get("cpr") for r in recs[a:b] if any(r.get(m) for m in MARKERS))
+            if (left_ok and clean and k < n and cmds[k]["steps"] and cmds[k]["steps"][0][0] == "U"
+                    and not cmds[k]["steps"][0][3]
+                    and tuple(cmds[j]["post"])[0] != tuple(cmds[i]["pre"])[0]):
+                got = tuple(cmds[k]["steps"][0][2])
+                if got != tuple(cmds[i]["pre"]):
+                    v.append({"signature": GROUP_SIG,
+                              "msg": f"{tag}run of {j - i + 1} '{kind}' calls starting at call#{i} then undo restored "
+                                     f"{got} instead of {cmds[i]['pre']}: mode={case['mode']} "
+                                     f"init=({case['text']!r},{case['cur']}) keys={names[:cmds[k]['fed'] + 1]}"})
             i = j + 1
 
-    # repeated undo reaches the text the session started with
-    if not odd and tr["tail"] and tr["note"] is None:
-        final = tr["tail"][-1]["post"]
-        if final[0] != case["text"]:
+    # repeated undo reaches the text the (last) session of this buffer started with
+    tail = [t for t in tr["tail"] if t["b"] == bi]
+    if not odd and tail and tr["note"] is None and not ro_lost and not ext_uncovered and not cross_lost:
+        final = tail[-1]["B"][bi]["post"]
+        if final[0] != init_text:
             v.append({"signature": "repeated undo | does not reach the initial text",
-                      "msg": f"mode={case['mode']} init=({case['text']!r},{case['cur']}) keys={names} "
-                             f"after {len(tr['tail'])} undos text={final[0]!r}"})
-        if tr["tail"][-1]["U"]:
+                      "msg": f"{tag}mode={case['mode']} init=({case['text']!r},{case['cur']}) keys={names} "
+                             f"after {len(tail)} undos text={final[0]!r} (session started with {init_text!r})"})
+        if tail[-1]["B"][bi]["U"]:
             v.append({"signature": "repeated undo | stack not exhausted",
-                      "msg": f"mode={case['mode']} keys={names}"})
+                      "msg": f"{tag}mode={case['mode']} keys={names}"})
     return v
 
 
 # ------------------------------------------------------------------ fully modelled emacs keys
-EKEYS = ["a", "b", "c-h", "delete", "left", "right", "home", "end", "c-k", "c-_", "c-x_c-u", "f12"]
+EKEYS = ["a", "b", "c-h", "delete", "left", "right", "home", "end", "c-k", "c-_", "c-x_c-u", "f12",
+         "c-a", "c-e", "c-b", "c-f", "c-u"]
 # identity of the shipped bindings, as the Lean model numbers them (EKey.hid)
 E_HID = {("self_insert", ("<any>",)): 0, ("backward_delete_char", ("c-h",)): 1, ("delete_char", ("delete",)): 2,
          ("backward_char", ("left",)): 3, ("forward_char", ("right",)): 4, ("beginning_of_line", ("home",)): 5,
          ("end_of_line", ("end",)): 6, ("kill_line", ("c-k",)): 7, ("undo", ("c-_",)): 8,
-         ("undo", ("c-x", "c-u")): 9, ("_redo", ("f12",)): 10}
+         ("undo", ("c-x", "c-u")): 9, ("_redo", ("f12",)): 10,
+         ("beginning_of_line", ("c-a",)): 11, ("end_of_line", ("c-e",)): 12, ("backward_char", ("c-b",)): 13,
+         ("forward_char", ("c-f",)): 14, ("unix_line_discard", ("c-u",)): 16}
 
 
 def _ekeys_as_keys(case):
@@ -697,8 +1213,15 @@ def ekeys_impl(case):
 
 
 # ------------------------------------------------------------------ fully modelled vi keys
-VKEYS = ["i", "a", "x", "u", "escape", "f12"]
-V_HID = {"self_insert": 0, "_redo": 10, "_back_to_navigation": 20, "_i": 21, "_a": 22, "_delete": 23, "_undo": 24}
+VKEYS = ["i", "a", "x", "u", "escape", "f12", "A", "X", "2", "3"]
+V_HID = {"self_insert": 0, "_redo": 10, "_back_to_navigation": 20, "_i": 21, "_a": 22, "_delete": 23, "_undo": 24,
+         "_A": 25, "_delete_before_cursor": 26, ("_arg", "2"): 27, ("_arg", "3"): 28}
+
+
+def _v_hid(r):
+    if r["name"] == "_arg":
+        return V_HID.get((r["name"], r["bkeys"][0] if r["bkeys"] else None), f"?{r['name']}{r['bkeys']}")
+    return V_HID.get(r["name"], f"?{r['name']}")
 
 
 def _vkeys_as_keys(case):
@@ -716,10 +1239,9 @@ def vkeys_impl(case):
 
     def suffix(r, prev_line):
         if r.get("cpr"):
-            return prev_line[-2:]          # a CPR response leaves the input mode alone
-        return " I" if r["ins_after"] else " N"
-    return _static_lines(tr, state_line(case["text"], case["cur"], "N", [], []) + " I",
-                         lambda r: V_HID.get(r["name"], f"?{r['name']}"), suffix)
+            return " " + " ".join(prev_line.split(" ")[-2:])   # a CPR response leaves input mode and argument alone
+        return (" I" if r["ins_after"] else " N") + " " + (r["arg_after"] or "-")
+    return _static_lines(tr, state_line(case["text"], case["cur"], "N", [], []) + " I -", _v_hid, suffix)
 
 
 def _as_keys(case):
@@ -730,6 +1252,11 @@ def _as_keys(case):
     return case
 
 
+def _flat(tokens):
+    """key tokens -> ops; a token is a key name or a marker [name, data]"""
+    return [t if isinstance(t, list) else [t, t if len(t) == 1 else None] for t in tokens]
+
+
 # ------------------------------------------------------------------ generators
 API_ALPHA = [["save", 1], ["save", 0], ["ins", "a"], ["ins", "b"], ["delb", 1], ["cur", 0], ["undo"], ["redo"]]
 CMD_ALPHA = {
@@ -738,8 +1265,17 @@ CMD_ALPHA = {
 }
 RAND_CHARS = ["a", "b", "c", " ", "\n", "世", "é", "x"]
 
-EMACS_SMALL = ["a", "b", "c-h", "left", "c-k", "c-_", "f12", "f9", "escape"]
-VI_SMALL = ["i", "a", "escape", "x", "u", "f12", "c-h", "2", "f9"]
+EMACS_SMALL = ["a", "b", "c-h", "left", "c-k", "c-_", "f12", "f9", "escape", "f7", "f6"]
+VI_SMALL = ["i", "a", "escape", "x", "u", "f12", "c-h", "2", "f9", "f7"]
+
+# new families of this round (markers are [name, data] pairs; see _session)
+RO1, RO0 = ["<ro>", 1], ["<ro>", 0]
+RO_VI_ALPHA = ["x", "escape", "u", "f12", "i", RO1, RO0]          # Vi `u` is the undo key that is active on read-only buffers
+RESTART_ALPHA = ["a", "c-h", "c-_", "f12", "left", ["<restart>", ["", 0]], ["<restart>", ["hi", 1]]]
+SEARCH_ALPHA = ["o", "c-r", "c-m", "c-g", "c-_", "f12", "c-h"]   # emacs incremental search over the history below
+MULTI_HISTORY = ["old one", "older two", "cold"]
+API_RO = {"A": [["save", 1], ["ins", "a"]], "H": [["save", 1], ["delb", 1]], "U": [["undo"]], "R": [["redo"]],
+          "P": [["ro", 1]], "Q": [["ro", 0]]}
 
 EMACS_TOKENS = (
     [[c] for c in ["a", "b", " ", "(", "x", "世", "a", "b"]] +
@@ -750,14 +1286,15 @@ EMACS_TOKENS = (
      ["escape", "u"], ["escape", "y"], ["escape", "\\"], ["escape", "3"], ["escape", "2", "a"], ["escape"],
      ["c-q", "a"], ["c-z"], ["c-@"], ["c-g"], ["c-left"], ["c-right"], ["c-home"], ["c-end"],
      ["escape", "<"], ["escape", ">"], ["c-n"], ["c-p"], ["pageup"], ["pagedown"], ["c-m"],
-     ["c-x", "("], ["c-x", ")"], ["c-x", "e"], ["<bracketed-paste>"], ["<flush>"], ["escape", "w"], ["<kpreset>"]])
+     ["c-x", "("], ["c-x", ")"], ["c-x", "e"], ["<bracketed-paste>"], ["<flush>"], ["escape", "w"], ["<kpreset>"],
+     ["f7"], ["f6"], ["f6"]])
 VI_TOKENS = (
     [[c] for c in ["a", "b", "x", "i", "w", "d", "u", "u", "h", "l", "0", "$", "2", "3", "p", "P", "y", "c", "A", "I",
                    "D", "C", "X", "s", "J", "o", "O", "~", "e", "v", "k", "j", "G", "R", " ", "世"]] +
     [["escape"], ["escape"], ["escape"], ["c-h"], ["c-h"], ["delete"], ["left"], ["right"], ["c-w"], ["c-v", "a"],
      ["c-m"], ["d", "d"], ["d", "w"], ["c", "w"], ["y", "y"], ["r", "z"], ["g", "g"], ["f12"], ["f12"], ["f9"],
      ["escape", "u"], ["escape", "u"], ["escape", "2", "u"], ["escape", "3", "u"], ["i", "a", "b", "escape"],
-     ["<bracketed-paste>"], ["<flush>"], ["c-o"], ["up"], ["down"], ["c-k"], ["c-t"], ["<kpreset>"]])
+     ["<bracketed-paste>"], ["<flush>"], ["c-o"], ["up"], ["down"], ["c-k"], ["c-t"], ["<kpreset>"], ["f7"], ["f6"]])
 
 
 def _flatten(tokens, rng=None):
@@ -767,6 +1304,8 @@ def _flatten(tokens, rng=None):
             if k == "<bracketed-paste>":
                 data = "".join(rng.choice(RAND_CHARS) for _ in range(rng.randrange(0, 4))) if rng else "p\nq"
                 ops.append([k, data])
+            elif isinstance(k, list):
+                ops.append(k)                    # a marker: [name, data]
             elif len(k) == 1:
                 ops.append([k, k])
             else:
@@ -804,12 +1343,28 @@ def _api_cases(quick, rng):
         for tup in itertools.product("ABHLKUR", repeat=n):
             ops = [list(o) for c in tup for o in CMD_ALPHA[c]]
             yield {"kind": "api", "text": "ab" if n % 2 else "", "cur": 1 if n % 2 else 0, "disc": True, "ops": ops}
+    # ---- api, read-only phases: every sequence over {edit a, backspace, undo, redo, read-only on, read-only off}
+    # (edits are only issued while the buffer is writable)
+    maxlen = 5 if quick else 6
+    for n in range(1, maxlen + 1):
+        for tup in itertools.product("AHURPQ", repeat=n):
+            if "P" not in tup:
+                continue
+            ops, ro = [], False
+            for c in tup:
+                if c in "PQ":
+                    ro = c == "P"
+                elif ro and c in "AH":
+                    continue
+                ops += [list(o) for o in API_RO[c]]
+            yield {"kind": "api", "text": "xy" if n % 2 else "", "cur": 1 if n % 2 else 0, "disc": True, "ops": ops}
     # ---- api, random
     for _ in range(2000 if quick else 15000):
         n = rng.choice([0, 1, 2, 3, 5, 8, 20])
         text = "".join(rng.choice(RAND_CHARS) for _ in range(n))
         cur = rng.choice([0, len(text), rng.randrange(0, len(text) + 1)])
         disc = rng.random() < 0.5
+        ro_phase = rng.random() < 0.3
         ops = []
         for _ in range(rng.randrange(1, 41)):
             k = rng.randrange(20)
@@ -819,6 +1374,9 @@ def _api_cases(quick, rng):
                 ops.append(["redo"])
             elif k < 10 and not disc:
                 ops.append(["save", rng.choice([1, 1, 0])])
+            elif k == 11 and ro_phase:
+                ops += [["ro", 1]] + [rng.choice([["undo"], ["redo"], ["undo"], ["cur", rng.randrange(0, 6)]])
+                                      for _ in range(rng.randrange(1, 4))] + [["ro", 0]]
             elif k == 10 and not disc:
                 t = "".join(rng.choice(RAND_CHARS) for _ in range(rng.randrange(0, 5)))
                 ops.append(["reset", t, rng.randrange(0, len(t) + 1)])
@@ -894,13 +1452,90 @@ def _key_cases(quick, rng):
             tl.insert(rng.randrange(len(tl) + 1), ["f10"])
         elif r < 0.16:
             tl.insert(rng.randrange(len(tl) + 1), ["f8"])
+        elif r < 0.26:
+            # a read-only phase with undo / redo attempts inside
+            p = rng.randrange(len(tl) + 1)
+            inner = [rng.choice([["escape", "u"], ["f12"], ["escape", "2", "u"], ["left"], ["f8"]])
+                     for _ in range(rng.randrange(1, 4))]
+            tl[p:p] = [[RO1]] + inner + [[RO0]]
+        elif r < 0.34:
+            t = "".join(rng.choice(["a", "b", " ", "x"]) for _ in range(rng.randrange(0, 4)))
+            tl.insert(rng.randrange(len(tl) + 1), [["<restart>", [t, rng.randrange(0, len(t) + 1)]]])
         kcases.append({"kind": "keys", "mode": mode, "multiline": "\n" in text or rng.random() < 0.4,
                        "text": text, "cur": cur,
                        "history": rng.choice([[], [], ["old one", "older\ntwo"]]),
                        "ops": _inject_cpr(_flatten(tl, rng), rng)})
+    # ---- read-only phases (Vi: `u` is active on a read-only buffer), exhaustive small scope + sample
+    maxlen = 3 if quick else 4
+    tups = [t for n in range(1, maxlen + 1) for t in itertools.product(range(len(RO_VI_ALPHA)), repeat=n)]
+    tups = [t for t in tups if 5 in t]        # at least one "read-only on"
+    tups += [tuple(rng.randrange(len(RO_VI_ALPHA)) for _ in range(rng.choice([4, 5, 6, 7])))
+             for _ in range(120 if quick else 1200)]
+    for tup in tups:
+        odd = len(tup) % 2
+        kcases.append({"kind": "keys", "mode": "vi", "multiline": False, "text": "xy" if odd else "",
+                       "cur": 1 if odd else 0, "history": [], "ops": _flat([RO_VI_ALPHA[i] for i in tup])})
+    # ---- a new prompt on the same PromptSession (Buffer.reset + Application.reset), exhaustive small scope + sample
+    tups = [t for n in range(1, maxlen + 1) for t in itertools.product(range(len(RESTART_ALPHA)), repeat=n)]
+    tups = [t for t in tups if 5 in t or 6 in t]
+    tups += [tuple(rng.randrange(len(RESTART_ALPHA)) for _ in range(rng.choice([4, 5, 6])))
+             for _ in range(80 if quick else 800)]
+    for idx, tup in enumerate(tups):
+        kcases.append({"kind": "keys", "mode": "emacs" if idx % 3 else "vi", "multiline": False, "text": "xy", "cur": 1,
+                       "history": [], "ops": _flat([RESTART_ALPHA[i] for i in tup])})
+    # ---- asynchronous completions: text inserted outside any command (`ext` items of the model)
+    for _ in range(60 if quick else 600):
+        tl = [rng.choice(["a", "l", "p", "c-i", "c-i", "c-_", "f12", "c-h", "left", "b", " "])
+              for _ in range(rng.randrange(2, 12))]
+        kcases.append({"kind": "keys", "mode": "emacs", "multiline": False, "text": rng.choice(["", "al", "x al"]),
+                       "cur": 0, "history": [], "completer": True, "ops": _flat(tl)})
+        kcases[-1]["cur"] = len(kcases[-1]["text"])
+    # ---- several buffers: incremental search (exhaustive small scope) and random search / system-prompt sessions
+    mcases = []
+    maxlen = 3 if quick else 4
+    tups = [t for n in range(1, maxlen + 1) for t in itertools.product(SEARCH_ALPHA, repeat=n) if "c-r" in t]
+    for tup in tups:
+        mcases.append({"kind": "mkeys", "mode": "emacs", "multi": True, "multiline": False, "text": "o", "cur": 1,
+                       "history": MULTI_HISTORY, "ops": _flat(tup)})
+    for _ in range(150 if quick else 1500):
+        mode = rng.choice(["emacs", "vi"])
+        tl = []
+        for _ in range(rng.randrange(1, 6)):
+            seg = rng.random()
+            chars = [rng.choice(["o", "l", "d", "x", " "]) for _ in range(rng.randrange(0, 4))]
+            inside = chars + [rng.choice(["c-h", "c-_", "f12", "left", "c-r", "c-s", "up", "down"])
+                              for _ in range(rng.randrange(0, 3))]
+            rng.shuffle(inside)
+            if seg < 0.4:      # edit the main buffer
+                toks = EMACS_TOKENS if mode == "emacs" else VI_TOKENS
+                tl += [k for tok in (rng.choice(toks) for _ in range(rng.randrange(1, 5))) for k in tok
+                       if k not in ("c-m", "c-j", "<bracketed-paste>")]
+            elif seg < 0.75:   # search
+                start = rng.choice(["c-r", "c-s"]) if mode == "emacs" else rng.choice(["escape", "escape"])
+                tl += [start] + (["/" if rng.random() < 0.5 else "?"] if mode == "vi" else [])
+                tl += inside + [rng.choice(["c-m", "c-g", "escape", "c-m"])]
+            else:              # system prompt (never Enter: it would run a shell command)
+                tl += (["escape", "!"] if mode == "emacs" else ["escape", "!"]) + inside + [rng.choice(["c-g", "escape", "c-c"])]
+            if rng.random() < 0.5:
+                tl += [rng.choice(["c-_", "f12"]) if mode == "emacs" else rng.choice(["u", "f12"])
+                       for _ in range(rng.randrange(1, 4))]
+        text = rng.choice(["", "o", "old", "x o"])
+        mcases.append({"kind": "mkeys", "mode": mode, "multi": True, "multiline": False, "text": text,
+                       "cur": rng.randrange(0, len(text) + 1), "history": rng.choice([MULTI_HISTORY, MULTI_HISTORY, []]),
+                       "ops": _inject_cpr(_flat(tl), rng, p=0.2)})
+    # ---- a form with two fields: focus changes by a key binding (c-n) and, with "advance", by a callback in
+    # the middle of a run of typed characters (not a command)
+    FORM_ALPHA = ["1", "2", "c-n", "c-_", "f12", "c-h"]
+    maxlen = 3 if quick else 4
+    tups = [t for n in range(1, maxlen + 1) for t in itertools.product(FORM_ALPHA, repeat=n)]
+    tups += [tuple(rng.choice(FORM_ALPHA) for _ in range(rng.choice([4, 5, 6, 7]))) for _ in range(60 if quick else 600)]
+    for idx, tup in enumerate(tups):
+        mcases.append({"kind": "mkeys", "form": True, "advance": 2 if idx % 2 else 0, "mode": "emacs" if idx % 4 < 3 else "vi",
+                       "multi": True, "multiline": False, "text": "", "cur": 0, "text2": "zz" if idx % 3 else "",
+                       "history": [], "ops": _flat(tup)})
     # ---- fully modelled emacs keys: the model predicts the text too, rules and identities are static
     ecases = []
-    small = ["a", "b", "c-h", "left", "c-k", "c-_", "c-x_c-u", "f12"]
+    small = ["a", "b", "c-h", "left", "c-k", "c-_", "c-x_c-u", "f12", "c-u"]
     maxlen = 3 if quick else 4
     tups = [t for n in range(1, maxlen + 1) for t in itertools.product(small, repeat=n)]
     if quick:   # beyond the exhaustive bound: a seeded sample of longer sequences
@@ -955,8 +1590,10 @@ def _key_cases(quick, rng):
             ops.append([k, k if len(k) == 1 else None])
         vcases.append({"kind": "vkeys", "multiline": "\n" in text, "text": text, "cur": cur,
                        "ops": _inject_cpr(ops, rng)})
-    _warm(kcases + [_as_keys(c) for c in ecases + vcases])
+    _warm(kcases + mcases + [_as_keys(c) for c in ecases + vcases])
+    # interleave the families so that every worker chunk gets its share of each kind
     yield from kcases
+    yield from mcases
     yield from ecases
     yield from vcases
 
@@ -967,8 +1604,11 @@ def _trace_worker(chunk):
         try:
             out.append(asyncio.run(_session(c)))
         except Exception as e:
+            sys.stderr.write(f"c07: harness exception {type(e).__name__}: {e} in {json.dumps(c)[:300]}\n")
+            nb = 2 if c.get("form") else 3 if c.get("multi") else 1
             out.append({"recs": [], "tail": [], "note": f"harness exception {type(e).__name__}: {e}",
-                        "init": (c["text"], c["cur"])})
+                        "init": (c["text"], c["cur"]), "nb": nb,
+                        "docs": [(c["text"], c["cur"])] + [("", 0)] * (nb - 1)})
     return out
 
 
@@ -993,11 +1633,13 @@ def _warm(kcases):
 
 # ------------------------------------------------------------------ plugin interface
 def model_lines(case):
-    return {"api": api_model, "keys": keys_model, "ekeys": ekeys_model, "vkeys": vkeys_model}[case["kind"]](case)
+    return {"api": api_model, "keys": keys_model, "mkeys": mkeys_model, "ekeys": ekeys_model,
+            "vkeys": vkeys_model}[case["kind"]](case)
 
 
 def impl_lines(case):
-    return {"api": api_impl, "keys": keys_impl, "ekeys": ekeys_impl, "vkeys": vkeys_impl}[case["kind"]](case)
+    return {"api": api_impl, "keys": keys_impl, "mkeys": mkeys_impl, "ekeys": ekeys_impl,
+            "vkeys": vkeys_impl}[case["kind"]](case)
 
 
 def oracle(case):
@@ -1013,11 +1655,16 @@ def oracle(case):
     return out
 
 
+def _is_cmd(r):
+    return not any(r.get(m) for m in MARKERS)
+
+
 def nontrivial(case):
     if case["kind"] == "api":
         return any(o[0] in ("undo", "redo") for o in case["ops"]) and any(o[0] == "save" for o in case["ops"])
     tr = trace(_as_keys(case))
-    return any(r.get("atoms") and tuple(r["pre"]) != tuple(r["post"]) for r in tr["recs"])
+    return any(_is_cmd(r) and any(d["atoms"] and tuple(d["pre"]) != tuple(d["post"]) for d in r["B"])
+               for r in tr["recs"])
 
 
 def sample_view(case):
@@ -1026,9 +1673,13 @@ def sample_view(case):
 
 def distribution(cases):
     d = {"kind": {}, "ops": {}, "len": {}, "key_calls": 0, "undo_cmds_changing": 0, "redo_cmds_changing": 0,
-         "grouped_calls(no save at boundary)": 0, "sessions_cut_short": {}}
+         "grouped_calls(no save at boundary)": 0, "handlers_that_raised": 0, "EditReadOnlyBuffer_outcomes": 0,
+         "read_only_undo_redo_attempts": 0, "restarts": 0, "external_edits(async completion)": 0,
+         "calls_with_focus_change": 0, "calls_editing_an_unfocused_buffer": 0, "buffer_resets_inside_a_handler": 0,
+         "distinct_shipped_bindings_dispatched": 0, "sessions_cut_short": {}}
+    rows = set()
     for c in cases:
-        k = c["kind"] + ("/" + c["mode"] if c["kind"] == "keys" else "")
+        k = c["kind"] + ("/" + c["mode"] if c["kind"] in ("keys", "mkeys") else "")
         c = _as_keys(c)
         d["kind"][k] = d["kind"].get(k, 0) + 1
         n = len(c["ops"])
@@ -1045,13 +1696,38 @@ def distribution(cases):
                 nk = tr["note"].split(" at key")[0][:40]
                 d["sessions_cut_short"][nk] = d["sessions_cut_short"].get(nk, 0) + 1
             for r in tr["recs"]:
-                if r.get("kp_reset") or r.get("cpr"):
+                if r.get("restart"):
+                    d["restarts"] += 1
+                if r.get("ext"):
+                    d["external_edits(async completion)"] += 1
+                if not _is_cmd(r):
                     continue
                 d["key_calls"] += 1
-                if r["atoms"] and tuple(r["pre"]) != tuple(r["post"]):
-                    d["undo_cmds_changing" if "U" in r["atoms"] else "redo_cmds_changing"] += 1
+                if r.get("row"):
+                    rows.add(tuple(r["row"]))
+                if r["out"] == "raised":
+                    d["handlers_that_raised"] += 1
+                if r["out"] == "ro":
+                    d["EditReadOnlyBuffer_outcomes"] += 1
+                if r["focus_pre"] != r["focus_post"]:
+                    d["calls_with_focus_change"] += 1
+                for i, b in enumerate(r["B"]):
+                    if b["atoms"] and tuple(b["pre"]) != tuple(b["post"]):
+                        d["undo_cmds_changing" if ("U" in b["atoms"]) else "redo_cmds_changing"] += 1
+                    if "UR" in b["atoms"] or "RR" in b["atoms"]:
+                        d["read_only_undo_redo_attempts"] += 1
+                    if "X" in b["atoms"]:
+                        d["buffer_resets_inside_a_handler"] += 1
+                    if i != r["focus_pre"] and tuple(b["pre"])[0] != tuple(b["post"])[0]:
+                        d["calls_editing_an_unfocused_buffer"] += 1
                 if not r["saved"] and not r["atoms"]:
                     d["grouped_calls(no save at boundary)"] += 1
+    d["distinct_shipped_bindings_dispatched"] = len(rows)
+    try:
+        d["grouped_rows_of_the_regenerated_table"] = [f"{r[0]} [{r[1]}]" for r in gen_c07.rows()
+                                                      if r[4] == 0 and r[2] and not r[3]]
+    except Exception as e:  # never let the evidence fail the run
+        d["grouped_rows_of_the_regenerated_table"] = f"error: {e}"
     return d
 
 
